@@ -42,7 +42,7 @@ def plan(tier: str) -> dict:
     return {"shards": 4, "budget_s": 30} if tier == "quick" else {"shards": 16, "budget_s": 400}
 
 
-def roundtrip(cfg: dict, stmts: list, readers=("flat", "to_graph", "sink_parse")) -> dict | None:
+def roundtrip(cfg: dict, stmts: list, readers=("flat", "to_graph", "sink_parse", "flat@offset")) -> dict | None:
     """Return a violation witness or None."""
     want = [T.norm_stmt(s) for s in stmts]
     try:
@@ -54,7 +54,14 @@ def roundtrip(cfg: dict, stmts: list, readers=("flat", "to_graph", "sink_parse")
         return {"clause": "contract", "summary": str(broken[0]), "contracts": broken}
     for reader in readers:
         try:
-            evs = pj.parse("generic", reader, data)
+            if reader == "flat@offset":
+                import io
+                pre = b"\x0a\x00preamble" if cfg.get("delimited", True) else b"\x00\x01preamble"
+                f = io.BytesIO(pre + data)
+                f.seek(len(pre))                  # the caller consumed its own preamble first
+                evs = pj.parse("generic", "flat", f)
+            else:
+                evs = pj.parse("generic", reader, data)
         except Exception as e:  # noqa: BLE001
             return {"clause": "parser-raised", "reader": reader, "summary": f"{reader}: {type(e).__name__}: {e}",
                     "bytes": data.hex()}
